@@ -261,6 +261,21 @@ func checkC03(p *core.Program, r *core.Report) {
 		} else {
 			r.Fail(R3, key, p.Pos(e.pos), "the remote device is set up while the connection is still in state(s) "+strings.Join(keysOf(st), ",")+": a timer of that phase can end the handshake in error while this side goes on to complete")
 		}
+		// exactly once: the run that sets the device up is the run that entered Approved - an entry that finds the
+		// connection already in Approved (a timer expiry while the application's setup callback is still running)
+		// must not reach the callback again
+		stale := false
+		for c := range e.cfgs {
+			if !c.moved {
+				stale = true
+			}
+		}
+		key = "setup only by the run that entered Approved (" + shortFn(e.fn) + ")"
+		if !stale {
+			r.OK(R3, key, p.Pos(e.pos), "every run that reaches the setup callback stored the state first")
+		} else {
+			r.Fail(R3, key, p.Pos(e.pos), "an entry that starts with the connection already in state Approved reaches SetupRemoteDevice without a state change of its own (e.g. the dispatcher has a case for Approved): the phase timer is still running while the application's setup callback executes, so its expiry sets the remote device up a second time", "entries: "+shortFn(strings.Join(keysOf(e.entry), ", ")))
+		}
 	}
 	// R5: HELLO_OK needs the remote side's "ready"
 	const R5 = "C03.R5 hello-ok-needs-remote-ready"
@@ -420,6 +435,9 @@ func checkC03(p *core.Program, r *core.Report) {
 	const R11 = "C03.R11 no-stale-timeout"
 	r.Rule(R11, "a handshake timer that was stopped or replaced does not deliver its timeout (cancellation protocol of C14.R1-R3, R5): a stale timeout aborts a side that has just granted a prolongation, so a later approval completes nothing")
 	importRules(p, r, "C14", map[string]string{"C14.R1 per-arm-token": R11, "C14.R2 non-lossy-stop": R11, "C14.R3 fire-revalidation": R11, "C14.R5 arm-always-arms": R11}, nil)
+	const R12 = "C03.R12 trust-predicate-is-the-stored-flag"
+	r.Rule(R12, "the predicate the handshake asks for trust returns exactly the trust flag stored for the SKI (shared with C01.R4): a predicate that also accepts e.g. the peer's announced auto-accept flag lets the server go ready after the user cancelled, and both sides complete")
+	importRules(p, r, "C01", map[string]string{"C01.R4 hub-trust-writers": R12}, nil)
 	_ = reflect.TypeOf
 }
 
